@@ -7,7 +7,7 @@ import (
 
 func cfgs() []Config {
 	var out []Config
-	for _, st := range []string{"np", "walk", "pct"} {
+	for _, st := range []string{"np", "walk", "pct", "sync"} {
 		for seed := uint64(1); seed <= 6; seed++ {
 			out = append(out, Config{Strategy: st, Seed: seed, WalkP: 0.5, ChangePoints: []int64{int64(seed), int64(seed * 3)}, MapPolicy: "sorted"})
 		}
